@@ -3,7 +3,7 @@ package s2
 // D57: a ShapeIndex distance target that an earlier threshold test used keeps maxError = 180 degrees
 // in its inner query; a later exact FindEdges with the same target object returns edges that are not
 // the closest ones.  Copy into s2/ and run: go test -run TestD57 ./s2/
-// Fails on 923e854, passes from 08fa8fc on.
+// Fails on 923e854, passes from ca366e5 on.
 
 import (
 	"fmt"
